@@ -33,6 +33,14 @@ def determinism(tier):
             many = core.run_batch(module, core.batch_seed(), tier, 320, 600.0, extra, workers=16)
             if one.digest() != many.digest() or sorted(one.viol) != sorted(many.viol):
                 raise core.HarnessError('batch digest differs between 1 and 16 workers')
+            # histories of runs (each run alone in a pristine child vs. in order in one child)
+            wrapper = core.RunSeq(module, (4, 8))
+            core._WRAPPERS[module.__name__] = wrapper  # pylint: disable=protected-access
+            first = core.HISTORY_FIRST_INDEX
+            h_one = core.run_batch(wrapper, core.batch_seed(), tier, 6, 600.0, extra, workers=1, chunk=1, first_index=first)
+            h_many = core.run_batch(wrapper, core.batch_seed(), tier, 6, 600.0, extra, workers=6, chunk=1, first_index=first)
+            if h_one.digest() != h_many.digest() or sorted(h_one.viol) != sorted(h_many.viol):
+                raise core.HarnessError('digest of a batch of run histories differs between 1 and 6 workers')
             print('determinism %s: ok (mini %s, batch %s, %.1fs)' % (prop, digest[:12], one.digest()[:12], time.time() - began))
         except core.HarnessError as exc:
             failed += 1
